@@ -35,7 +35,14 @@ type runCase struct {
 	Banned2 []string          `json:"banned2"` // a second, separate WithBannedDirectives option
 	RawRoot string            `json:"rawroot"` // if set: spelling of the root path relative to the project dir, used verbatim
 	Warm    []string          `json:"warm"`    // other root files of the same directory, validated first in this process (results dropped)
+	// DefaultOpts: do not pass WithFixedSeedForRegex (the harness passes it otherwise, as the library's own tests do)
+	DefaultOpts bool `json:"default_opts"`
+	// SharedBan: use the option VALUE shared by all cases of a concurrent group (set by the conc driver) before the own ones
+	SharedBan bool `json:"shared_ban"`
 }
+
+// sharedOption is one core.Option value handed to several projects (conc driver)
+var sharedOption core.Option
 
 type errObs struct {
 	Msg   string      `json:"msg"`
@@ -313,6 +320,12 @@ func once(c *runCase, base string, want map[string]bool) (o *runObs) {
 		o.Outcome = "harness"
 		o.Panic = err.Error()
 		return o
+	}
+	if c.DefaultOpts {
+		oo = oo[:len(oo)-1] // the fixed seed is the last one
+	}
+	if c.SharedBan && sharedOption != nil {
+		oo = append([]core.Option{sharedOption}, oo...)
 	}
 	rootPath := filepath.Join(base, c.Root)
 	if c.RawRoot != "" {
